@@ -32,6 +32,8 @@ func vpH_C01_T_stop_delete() {
 	vpQuiesce()
 	vpCover("C01.stop-delete")
 	vpAuditLogL(s.st, "a", false, 0, true, leaderAtStop)
+	// C08: one promotion, and exactly one demotion callback by now whatever the order of preemption and stop
+	vpAssert("C08.balance-at-quiescence", !s.e.IsLeader() && s.cb.promotes == 1 && s.cb.demotes == 1)
 }
 
 // vpH_C01_T_preempted: a takeover-enabled instance (priority 5) that became leader through the follower path
@@ -57,4 +59,24 @@ func vpH_C01_T_preempted() {
 	vpCover("C01.preempted")
 	vpAuditLog(s.st, "a", true, 5, false)
 	_ = s.e.Stop()
+}
+
+// vpH_C01_T_group_key: groups whose names contain characters outside [A-Za-z0-9_-]: every store operation of
+// the election must address exactly its own group's key (elections of different groups never share a record).
+func vpH_C01_T_group_key() {
+	names := []string{"payments eu", "payments_eu", "jobs:nightly", "a/b.c=d", "grp-1"}
+	g := names[vpChoose("group", len(names))]
+	st := vpNewStore(g, 0)
+	kv := vpHandle(st, "a")
+	cfg := vpBaseConfig("a", time.Second, 3*time.Second)
+	cfg.Group = g
+	cfg.ValidationInterval = time.Hour
+	e := vpMustNew(&vpProvider{kv}, cfg)
+	_ = e.Start(vpRootCtx())
+	time.Sleep(1500 * time.Millisecond)
+	vpQuiesce()
+	vpCover("C01.group-key")
+	vpAssert("C01.mut.key-is-group", e.key == g && e.IsLeader())
+	_ = e.StopWithContext(context.Background(), StopOptions{DeleteKey: true})
+	vpAuditLog(st, "a", false, 0, true)
 }
